@@ -119,6 +119,25 @@ theorem source_adaptor_buffered_pull_is_the_wrappers {ρ' : Type} (f : Nat) (c :
       m_fn (PF.bind (BufIter.pull f c it b : PF _ _) (fun r => (pure (r.1, (⟨r.2⟩ : RSP.AdaptBufSelfP)) : PF _ _))) :=
   ⟨cloned_buf_pull f c it b, copied_buf_pull f c it b⟩
 
+/-- **a buffered pull (`buffered_iter(n).next()`, hence `for_each` / `fold` with chunk size > 1) through `cloned()` / `copied()`
+over the wrapper is, node for node, the wrapper's own buffered pull** (`GenThms.Proto.buffered_next_tree`): it reserves on the
+wrapper's counter, checks `completed`, **waits for its turn** (`tWaitLoop`), fills the wrapper's buffer and publishes — the
+generic `BufferedIter::next`, instantiated for the adaptor from the current source -/
+theorem source_adaptor_buffered_next_is_the_wrappers {ρ' : Type} (k : Nat) (vals : List (Option Nat)) :
+    (BufferedIterClonedI.next k (aself vals) : PF ρ' _) =
+      .faa .R .acqrel vals.length (fun b => .ldB .C .seqcst fun c =>
+        if c then .ret (.norm (none, aself vals))
+        else tWaitLoop (fun o => match o with
+          | none => .ret (.norm (none, aself vals))
+          | some b' => tFill (tBufNextPublishA b') k vals 0) k b) ∧
+    (BufferedIterCopiedI.next k (aself vals) : PF ρ' _) =
+      .faa .R .acqrel vals.length (fun b => .ldB .C .seqcst fun c =>
+        if c then .ret (.norm (none, aself vals))
+        else tWaitLoop (fun o => match o with
+          | none => .ret (.norm (none, aself vals))
+          | some b' => tFill (tBufNextPublishA b') k vals 0) k b) :=
+  ⟨cloned_buffered_next_tree k vals, copied_buffered_next_tree k vals⟩
+
 end SourceWrapper
 
 end Orx.Props.C13
